@@ -84,25 +84,30 @@ def local_inits(fn):
         p = y["pat"]
         if p.get("k") == "Bind":
             inits[p["local"]] = y["init"]
-        elif p.get("k") in ("Struct", "TupleStruct") and mentions_self(y["init"]):
-            pats = [p]
+        elif p.get("k") in ("Struct", "TupleStruct", "Ref") and mentions_self(y["init"]):
+            # (pattern, top-level field it sits under): a local bound inside `solver_params: SolverParams { eps, .. }` is a
+            # part of `solver_params`
+            pats = [(p, None)]
             while pats:
-                q = pats.pop()
-                if q.get("k") == "Struct":
+                q, top = pats.pop()
+                if q.get("k") == "Ref":
+                    pats.append((q.get("pat") or {}, top))
+                elif q.get("k") == "Struct":
                     for f_ in q["fields"]:
                         bs_ = list(pat_bindings(f_["pat"]))
                         if f_["pat"].get("k") == "Bind" and len(bs_) == 1:
-                            destr[bs_[0]["local"]] = f_["name"]
+                            destr[bs_[0]["local"]] = top or f_["name"]
                         else:
-                            pats.append(f_["pat"])
+                            pats.append((f_["pat"], top or f_["name"]))
                 elif q.get("k") == "TupleStruct":
+                    single = len(q.get("pats") or []) == 1
                     for i_, q2 in enumerate(q.get("pats") or []):
                         if q2.get("k") == "Bind":
                             bs_ = list(pat_bindings(q2))
                             if bs_:
-                                destr[bs_[0]["local"]] = str(i_)
+                                destr[bs_[0]["local"]] = top or str(i_)
                         else:
-                            pats.append(q2)
+                            pats.append((q2, top if (top or single) else str(i_)))
     return inits, destr
 
 
@@ -225,6 +230,12 @@ def check_clone(F, fn, idx):
         if val is None:
             return why_none
         fs, arg, chg = pv.fields(val)
+        v0 = peel_refs(val)
+        if v0.get("k") == "Struct" and v0.get("fields") and fname in fs and not (v0.get("base") is not None and fname in pv.fields(v0["base"])[0]):
+            # the field is rebuilt with a literal of its own type: every component has to come from the original's
+            for f2 in v0["fields"]:
+                if fname not in pv.fields(f2["e"])[0] and "PhantomData" not in (c.ty(f2["e"].get("t")) or ""):
+                    return ("violation", "%s : clone-field-not-copied:%s.%s" % (key, fname, f2["name"]), "the clone rebuilds `%s` and gives its component `%s` a value that is not read from the original" % (fname, f2["name"]))
         if fname in fs or (fname.isdigit() and ("0" in fs or fname in fs)):
             if chg and chg in ("is_some", "is_none", "is_empty", "len") and not any(y.get("k") == "MethodCall" and y["name"] in ("clone", "to_owned", "cloned") for y in walk(val)):
                 return ("violation", "%s : clone-derives-field:%s" % (key, fname), "the clone's `%s` is computed through `.%s()` instead of being copied" % (fname, chg))
